@@ -152,6 +152,8 @@ def prepare_examples(ctx, extreme_rain=True):
     # a table that falls from 5 dm to the profile bottom overnight: the first sub-steps of the following day move much
     # water and nitrate (transport clamps above the instability threshold in an EARLY sub-step of a multi-sub-step day)
     g3 += "K5,01011979,5\nK5,06201981,5\nK5,06211981,19\nK5,12312010,19\n"
+    # a table that sinks slowly (about 0.7 cm a day: far less than the shipped series moves on a day it moves at all)
+    g3 += "KS,01011979,8\nKS,01011980,8\nKS,12311981,13\nKS,12311986,6\nKS,12312010,6\n"
     open(gp, "w").write(g3)
     # the residue table: the silage-maize row becomes the LAST row, and the file keeps ending without a line feed
     cn = os.path.join(ex, "parameter", "CROP_N.TXT")
@@ -168,7 +170,17 @@ def prepare_examples(ctx, extreme_rain=True):
     for i, l in enumerate(pl):
         if l.startswith("10002 ") and " 99 99 0 " in l:
             pl[i] = l.replace(" 99 99 0 ", " 99 99 1 ", 1)
+    # a polygon whose groundwater table swings between 6 and 14 dm (sinusoid, GroundWaterFrom=polygonfile) ...
+    endp = [i for i, l in enumerate(pl) if l.strip() == "end"]
+    pl.insert(endp[0] if endp else len(pl), "10003 001 SOYSM1    06 14 0 soy_maize_gley")
     open(pp, "w").write("\n".join(pl))
+    # ... on a gley without FC/WP/PS columns (texture-table route: Hydro is re-read at every level change), humous loamy sand
+    sl3 = open(sp).read().split("\n")
+    endi3 = [i for i, l in enumerate(sl3) if l.strip() == "end"]
+    at = endi3[0] if endi3 else len(sl3)
+    sl3[at:at] = ["903 2.00 SL3 03 3 00 10      00 10 02                     00  20   00 99 01",
+                  "903 0.70 SL3 20 3 00 10      00                           00  20   00       "]
+    open(sp, "w").write("\n".join(sl3))
     open(os.path.join(ex, "project", "ex1", "irr_ex1.txt"), "w").write(
         "Field_ID  Ir N03 date\n          mm mg/l \n"
         "SMSOY2    10  10 05011978\nSMSOY2    12  70 06011979\n"
@@ -264,6 +276,8 @@ TRACE_LINES = [
     ("project=ex3 WeatherFolder=historical soilId=075 gwId=K5 fcode=109_120 plotNr=10001 Altitude=73 Latitude=52.6732 poligonID=29872", "EN"),
     # fixed sowing / harvest dates with automatic fertilisation: organic fertiliser due the day after harvest
     ("project=zuc WeatherFolder=extreme fcode=109_120 plotNr=10001 soilId=001 Altitude=73 Latitude=52.6732 poligonID=29872 AutoHarvest=0 AutoSowingHarvest=0", "DE"),
+    ("project=ex3 WeatherFolder=historical soilId=075 gwId=KS fcode=109_120 plotNr=10001 Altitude=73 Latitude=52.6732 poligonID=29872", "EN"),
+    ("project=ex1 WeatherFolder=historical soilId=903 fcode=109_120 plotNr=10003 Altitude=73 Latitude=52.6732 poligonID=29872 GroundWaterFrom=0", "EN"),
     ("project=bulk WeatherFolder=extreme soilId=002 fcode=109_120 plotNr=10001 Altitude=73 Latitude=52.6732 poligonID=29872", "EN"),
     ("project=rue WeatherFolder=historical fcode=109_121 plotNr=10002 soilId=001 Altitude=46 Latitude=52.6431 poligonID=30169", "DE"),
     ("project=ex1 WeatherFolder=extreme soilId=041 fcode=109_121 plotNr=10001 Altitude=73 Latitude=52.6680 poligonID=29876 ETpot=1", "EN"),
@@ -271,7 +285,7 @@ TRACE_LINES = [
 
 
 # entries of TRACE_LINES (two-tuples: other modules unpack them) that cannot use the common end year
-TRACE_PERIOD = {"project=MUN ": (2010, 2015)}
+TRACE_PERIOD = {"project=MUN ": (2010, 2015), "gwId=KS": (1981, 1988), "soilId=903": (1981, 1986)}
 
 
 def common_period_lines():
@@ -294,7 +308,7 @@ def run_trace(ctx, water_every=None):
     """traced runs of shipped projects (scratch copy) -> (rc, cases, oracle lines, stderr)"""
     import os
     ex = prepare_examples(ctx)
-    nl, endy = (15, 1995) if ctx.thorough else (12, 1982)
+    nl, endy = (17, 1995) if ctx.thorough else (14, 1982)
     lf = os.path.join(ctx.work, "trace_lines.txt")
     with open(lf, "w") as f:
         f.write("\n".join(trace_lines(ctx, nl, endy)) + "\n")
